@@ -93,7 +93,7 @@ def run_pyser(n, ops, big_endian=False):
                 s = stack.pop()
             else:
                 ser_op(s, t)
-        return '%d %s' % (s.current_bit_length, hx(root._buf.tobytes()))
+        return '%d %s %s' % (s.current_bit_length, hx(root._buf.tobytes()), hx(s.buffer.tobytes()))
     except EXC:
         return 'EXC@%d' % idx
 
